@@ -399,6 +399,14 @@ def run_esn(c, dwell_ms=1.0):
         esn.fit(Xs[::-1], [2.0 * y + 1.0 for y in Ys[::-1]], warmup=w)          # an earlier, completed session on other targets
         esn.fit(Xs, Ys, warmup=w)
         sols.append(dict(wb(rd), how="esn RE-fit (already fitted) workers=%s backend=%s" % (k, be)))
+    if len(Xs) >= 2:
+        # the first sequence given to the readout directly (partial_fit on its reservoir states), the others through ESN.fit under a
+        # parallel schedule: every sequence must still be counted exactly once
+        for k, be in c.get("refit_configs", []):
+            esn, res, rd = mk_esn(c, k, be, "pf%s%d" % (be[:3], k))
+            rd.partial_fit(states[0], Ys[0], warmup=w)
+            esn.fit(Xs[1:], Ys[1:], warmup=w)
+            sols.append(dict(wb(rd), how="readout.partial_fit(first sequence) then esn.fit(the others) workers=%s backend=%s" % (k, be)))
     single = None
     if "X1" in c:
         x1, y1, w1 = farr(c["X1"], c["din"]), farr(c["Y1"], c["dout"]), c["w1"]
